@@ -250,7 +250,13 @@ def _spec_part(ctx):
               S.parse_version_specifier("==1.0.post1"), S.parse_version_specifier("==1.0-1"),
               S.parse_version_specifier(">=v1.0"), S.parse_version_specifier(">= 1.0"),
               S.GenericSpecifier("==", "A"), S.GenericSpecifier("in", "A"), S.GenericSpecifier("!=", "a"),
-              S.GenericSpecifier("!=", "a")):
+              S.GenericSpecifier("!=", "a"),
+              # spellings of the universal / empty set through the least PEP 440 version
+              S.parse_version_specifier(">=0.dev0"), S.parse_version_specifier(">=0.0.dev0"),
+              ~S.parse_version_specifier("<0.dev0"), S.parse_version_specifier("<0.dev0"),
+              S.parse_version_specifier(">0.dev0"), S.parse_version_specifier(">=0"),
+              S.parse_version_specifier(">=0.dev0") | S.parse_version_specifier("<1"),
+              S.parse_version_specifier("<0.dev0") & S.parse_version_specifier("<1")):
         _add(ctx, zoo, x, 10 ** 6)
     ctx.shape("pair:any-vs-range")
     n = 120 if ctx.tier == "quick" else 1500
